@@ -111,7 +111,7 @@ impl Property for C16 {
         }
     }
     fn rule(&self) -> &'static str {
-        "live seeded world (no favored/locked; dense, shuffled and sparse id layouts) -> DependencySnapshot::from_provider_async under the simulator's executor with seeded seed sets of names / version sets / solvables -> 0-2 serde_json round trips -> SnapshotProvider + seeded history of add_package_requirement calls -> problems over captured version sets (always one using the highest-numbered captured id) and added ones; oracle: no panic in snapshot code; added ids distinct from captured ids and from each other; every captured version set keeps its name/display/matches after the adds; per-package candidate order by `order` equals the live sort order; verdict = reference on the live tables (+ added sets); Ok(S) valid against the live tables; S = first-choice closure when C07's precondition holds; non-trivial = snapshot with >= 3 solvables and at least one problem solved; distinct = (world, spec) hash"
+        "live seeded world (no favored/locked; dense, shuffled and sparse id layouts) -> DependencySnapshot::from_provider_async under the simulator's executor with seeded seed sets of names / version sets / solvables -> 0-2 serde_json round trips -> SnapshotProvider + seeded history of add_package_requirement calls -> problems over captured version sets (always one using the highest-numbered captured id) and added ones; oracle: no panic in snapshot code; added ids distinct from captured ids and from each other; every captured version set keeps its name/display/matches after the adds; per-package candidate order by `order` equals the live sort order; verdict = reference on the live tables (+ added sets); Ok(S) valid against the live tables; S = first-choice closure when C07's precondition holds; the live provider looks up its ranking policy once per sort_candidates call, for the package of the slice it is given (a slice that mixes packages is ranked by the first one's policy); non-trivial = snapshot with >= 3 solvables and at least one problem solved; distinct = (world, spec) hash"
     }
     fn gen(&self, seed: u64, _tier: Tier) -> Vec<Scenario> {
         let mut params = match seed % 3 {
@@ -799,7 +799,7 @@ impl Property for C20 {
         }
     }
     fn rule(&self) -> &'static str {
-        "2-6 concurrent client tasks joined under the simulator's executor issue seeded sequences of get_or_cache_candidates / matching / non_matching / sorted_candidates / dependencies and are_dependencies_available_for against one SolverCache over a seeded world with all provider methods yielding (identical queries overlap in flight), followed by a sequential phase repeating every query; plus the same queries issued re-entrantly from sort_candidates; oracle: every answer equals the value computed from the provider tables (partition in list order, sort order with favored rotated to the front, availability = hinted-by-received-candidates or already fetched), phase-2 answers are identical and cause no provider call, get_candidates starts at most once per name, references held since phase 1 are unchanged at the end; non-trivial = >= 6 operations and >= 2 quiescent points; distinct = (world, completion trace, spec) hash"
+        "2-6 concurrent client tasks joined under the simulator's executor issue seeded sequences of get_or_cache_candidates / matching / non_matching / sorted_candidates / dependencies and are_dependencies_available_for against one SolverCache over a seeded world with all provider methods yielding (identical queries overlap in flight), followed by a sequential phase repeating every query; plus the same queries issued re-entrantly from sort_candidates; oracle: every answer equals the value computed from the provider tables (partition in list order, sort order with favored rotated to the front, availability = hinted-by-received-candidates or already fetched), phase-2 answers are identical and cause no provider call, get_candidates starts at most once per name, references held since phase 1 are unchanged at the end, a query that was answered before is answered again even while the provider signals cancellation; on a quarter of the seeds candidates answers also announce solvables of other packages in their Some-hint; non-trivial = >= 6 operations and >= 2 quiescent points; distinct = (world, completion trace, spec) hash"
     }
     fn gen(&self, seed: u64, _tier: Tier) -> Vec<Scenario> {
         let base = match seed % 2 {
